@@ -10,22 +10,29 @@ From EV Require Import Res Arr StableSort Spans SpansSpec FilterIndex FilterInde
 Import ListNotations.
 Open Scope Z_scope.
 
-Definition rowle : list cell -> list cell -> bool := lex_le cell_le.
-(* (row_eqb of Model/Group.v is rowle in both directions = equality of the tuples) *)
-
-(* insertion of a key tuple into an ascending duplicate-free list *)
-Fixpoint insert_uniq (r:list cell) (l:list (list cell)) : list (list cell) :=
+(* ---- generic in the key type K with its total order kle (instances: rows of key cells, scalars) ---- *)
+Section Generic.
+Context {K:Type}.
+Variable kle : K -> K -> bool.
+Definition keqb (a b:K) : bool := kle a b && kle b a.
+(* insertion of a key into an ascending duplicate-free list *)
+Fixpoint insert_uniq (r:K) (l:list K) : list K :=
   match l with
   | [] => [r]
-  | x :: t => if rowle r x then (if rowle x r then x :: t else r :: x :: t) else x :: insert_uniq r t
+  | x :: t => if kle r x then (if kle x r then x :: t else r :: x :: t) else x :: insert_uniq r t
   end.
-Definition groups (keyrows:list (list cell)) : list (list cell) := fold_right insert_uniq [] keyrows.
+Definition groups_by (keys:list K) : list K := fold_right insert_uniq [] keys.
+Definition members_by {A} (k:K) (keys:list K) (vals:list A) : list A :=
+  map snd (filter (fun p:K * A => keqb (fst p) k) (combine keys vals)).
+Definition agg_by {A B} (f:list A -> B) (keys:list K) (vals:list A) : list B :=
+  map (fun k => f (members_by k keys vals)) (groups_by keys).
+End Generic.
 
-Definition members {A} (k:list cell) (keyrows:list (list cell)) (vals:list A) : list A :=
-  map snd (filter (fun p:list cell * A => row_eqb (fst p) k) (combine keyrows vals)).
-
-Definition agg_ref {A B} (f:list A -> B) (keyrows:list (list cell)) (vals:list A) : list B :=
-  map (fun k => f (members k keyrows vals)) (groups keyrows).
+Definition rowle : list cell -> list cell -> bool := lex_le cell_le.
+(* (row_eqb of Model/Group.v = keqb rowle: rowle in both directions = equality of the tuples) *)
+Definition groups (keyrows:list (list cell)) : list (list cell) := groups_by rowle keyrows.
+Definition members {A} (k:list cell) (keyrows:list (list cell)) (vals:list A) : list A := members_by rowle k keyrows vals.
+Definition agg_ref {A B} (f:list A -> B) (keyrows:list (list cell)) (vals:list A) : list B := agg_by rowle f keyrows vals.
 
 (* the aggregates on cells (a cell = byte string of an indexed string entry / [encoded scalar]) *)
 Definition first_of (l:list cell) : cell := nthd [] l 0.
